@@ -1,23 +1,45 @@
 """Extractor plug-in for C12 (retry / rewind): what the model `Retry.lean` reads from the three adapters and `utils.requires_auth`.
 
-Per streaming method (local / S3 / B2 × upload / download) the `try … except: …; raise` around the transfer is looked at:
-  *Rewind    : Option Nat   `stream.seek(k)` in the except-branch (none = no such call)
-  *CatchAll  : Bool         the branch catches everything (bare / BaseException / Exception) and ends in a bare `raise`
-  *Unlink    : Bool         (local upload) the temporary file is unlinked in the branch
-  *Truncate  : Bool         (downloads) `stream.truncate(…)` inside the `try`, before the copy
-  *Decorated : Bool         the method carries the back-off decorator of its module
+Per streaming method (local / S3 / B2 × upload / download) the code that runs when the transfer fails is looked at:
+  *Rewind    : Option Nat   the stream is at `k` (`stream.seek(k)`) whenever a failed transfer leaves the retried function (none = not so)
+  *CatchAll  : Bool         that holds for EVERY exception of the transfer, and the exception goes on to the caller (is not swallowed)
+  *Unlink    : Bool         (local upload) the temporary file is unlinked on that way out
+  *Truncate  : Bool         (downloads) `stream.truncate(…)` has been called before the sink is written
+  *Decorated : Bool         the transfer runs inside a function that carries the back-off decorator of its module
 plus the S3 digest helper's rewind, the exception classes the decorators catch, the give-up status, the give-up predicate of the
 LOCAL decorator tabulated over a universe of OSError classes (`retryLocalGiveupErrnos`, see `local_giveup`), and for B2 which status the
 response hook turns into AuthRequired, which status the back-off handler lets through as a plain retry, whether it raises
 AuthRequired otherwise, whether it sleeps for Retry-After, and whether `requires_auth` bounds its re-authentication rounds.
 Nothing is assumed silently: what is not recognised is emitted as `none` / `false`, and `Retry.Cfg.Sound` (proved by `decide` in
 Properties/C12.lean) then fails to compile.
+
+The recognisers are semantic (they use Parts A–C of `16_s3.py`): the PUBLIC `upload_stream` / `download_stream` are followed into the
+helpers the stream is handed to; the retried function is the one on that way which carries a decorator that *evaluates* to
+`backoff.on_exception(…)` (through names, module constants, `functools.partial`); an abstract interpretation of the stream's
+position along normal and exceptional paths (except / finally clauses, helper calls, any spelling of the handler) gives the rewind
+facts; predicates and handlers are evaluated symbolically and compared as normalised conditions (early returns, swapped branches,
+De Morgan, `!=`, status constants in any spelling).  Names of locals, private methods, attributes and module constants do not matter.
 """
 import ast
+import importlib.util
 import os
+import sys
+from pathlib import Path
 
 HTTP_CODES = {'NOT_FOUND': 404, 'BAD_REQUEST': 400, 'FORBIDDEN': 403, 'UNAUTHORIZED': 401, 'TOO_MANY_REQUESTS': 429,
               'SERVICE_UNAVAILABLE': 503, 'INTERNAL_SERVER_ERROR': 500, 'REQUEST_TIMEOUT': 408}
+
+
+def _lib():
+    """Parts A–C (symbolic evaluator, requests, stream flow) live in 16_s3.py"""
+    name = 'replicat_sections_16_s3_lib'
+    if name in sys.modules:
+        return sys.modules[name]
+    spec = importlib.util.spec_from_file_location(name, Path(__file__).with_name('16_s3.py'))
+    mod = importlib.util.module_from_spec(spec)
+    sys.modules[name] = mod
+    spec.loader.exec_module(mod)
+    return mod
 
 
 def _lit(node):
@@ -25,33 +47,6 @@ def _lit(node):
         return ast.literal_eval(node)
     except Exception:
         return None
-
-
-def _status_const(node, unparse):
-    v = _lit(node)
-    if isinstance(v, int) and not isinstance(v, bool):
-        return v
-    s = unparse(node)
-    for k, c in HTTP_CODES.items():
-        if s.endswith('codes.' + k):
-            return c
-    return None
-
-
-def _status_eq(test, unparse):
-    """`<x>.status_code == <const>` → int"""
-    if isinstance(test, ast.Compare) and len(test.ops) == 1 and isinstance(test.ops[0], ast.Eq) and unparse(test.left).endswith('status_code'):
-        return _status_const(test.comparators[0], unparse)
-    return None
-
-
-def _params(fn):
-    a = fn.args
-    return {x.arg for x in a.posonlyargs + a.args + a.kwonlyargs}
-
-
-def _raises(node, what, unparse):
-    return isinstance(node, ast.Raise) and node.exc is not None and unparse(node.exc).split('(')[0].endswith(what)
 
 
 def _b(x):
@@ -62,66 +57,86 @@ def _on(x):
     return 'none' if x is None else f'some {x}'
 
 
-def handler_info(fn, unparse):
-    """the try/except around the transfer of a streaming method"""
-    info = {'rewind': None, 'catch_all': False, 'unlink': False, 'truncate': False, 'found': False}
-    if fn is None:
-        return info
-    params = _params(fn)
-    best = None
-    for node in ast.walk(fn):
-        if isinstance(node, ast.Try) and node.handlers:
-            best = node      # the innermost / last one: the streaming methods have exactly one
-    if best is None:
-        return info
-    info['found'] = True
-    h = best.handlers[0]
-    catches = h.type is None or unparse(h.type) in ('BaseException', 'Exception')
-    reraises = bool(h.body) and isinstance(h.body[-1], ast.Raise) and h.body[-1].exc is None
-    info['catch_all'] = catches and reraises and len(best.handlers) == 1
-    for st in h.body:
-        for node in ast.walk(st):
-            if isinstance(node, ast.Call) and isinstance(node.func, ast.Attribute):
-                if node.func.attr == 'seek' and isinstance(node.func.value, ast.Name) and node.func.value.id in params and node.args:
-                    k = _lit(node.args[0])
-                    whence_ok = len(node.args) == 1 or _lit(node.args[1]) == 0 or unparse(node.args[1]).endswith('SEEK_SET')
-                    if isinstance(k, int) and not isinstance(k, bool) and k >= 0 and whence_ok and not node.keywords:
-                        info['rewind'] = k
-                if node.func.attr == 'unlink':
-                    info['unlink'] = True
-    for st in best.body:
-        for node in ast.walk(st):
-            if isinstance(node, ast.Call) and isinstance(node.func, ast.Attribute) and node.func.attr == 'truncate' \
-                    and isinstance(node.func.value, ast.Name) and node.func.value.id in params and len(node.args) == 1:
-                info['truncate'] = True
-    return info
-
-
-def decorators(fn, unparse):
-    return [unparse(d) for d in fn.decorator_list] if fn is not None else []
-
-
-def assigned_call(tree, name):
-    for node in tree.body:
-        if isinstance(node, ast.Assign) and len(node.targets) == 1 and isinstance(node.targets[0], ast.Name) and node.targets[0].id == name \
-                and isinstance(node.value, ast.Call):
-            return node.value
+def status_value(t):
+    """a status code as a term → int (literal, `httpx.codes.X`, `http.HTTPStatus.X`, `codes.X` imported from httpx)"""
+    L = _lib()
+    ok, v = L.const_of(t)
+    if ok and isinstance(v, int) and not isinstance(v, bool):
+        return v
+    if t[0] == 'ext':
+        parts = t[1].split('.')
+        if len(parts) >= 2 and parts[-2] in ('codes', 'HTTPStatus', 'status_codes'):
+            import http
+            try:
+                return int(http.HTTPStatus[parts[-1]])
+            except KeyError:
+                return HTTP_CODES.get(parts[-1])
     return None
 
 
-def giveup_status(tree, call, unparse):
-    """status code the `giveup=` predicate of a back-off decorator compares with (through the module-level predicate function)"""
-    if call is None:
+def status_test(c):
+    """condition `<x>.status_code == K` (either order, any spelling of K) → (x, K) ; else None"""
+    if c[0] != 'eq':
         return None
-    for k in call.keywords:
-        if k.arg == 'giveup' and isinstance(k.value, ast.Name):
-            for node in tree.body:
-                if isinstance(node, ast.FunctionDef) and node.name == k.value.id:
-                    for sub in ast.walk(node):
-                        c = _status_eq(sub, unparse)
-                        if c is not None and 'HTTPStatusError' in unparse(node):
-                            return c
+    for a, b in ((c[1], c[2]), (c[2], c[1])):
+        if a[0] == 'attr' and a[2] == 'status_code':
+            k = status_value(b)
+            if k is not None:
+                subj = a[1][1] if a[1][0] == 'attr' and a[1][2] == 'response' else a[1]
+                return subj, k
     return None
+
+
+def is_class(t, name):
+    return t[0] == 'ext' and t[1].split('.')[-1] == name
+
+
+def exception_is(exc, name):
+    """the value of a `raise` statement is (an instance of) the class called `name`"""
+    if exc is None:
+        return False
+    if exc[0] == 'call' and isinstance(exc[1], str):
+        return exc[1].split('.')[-1] == name
+    return is_class(exc, name)
+
+
+def same_call(a, b):
+    return a is not None and b is not None and a[1:] == b[1:]
+
+
+# ------------------------------------------------------------------------------------------------------- the transfer of one method
+def transfer_info(L, sym, mod, cls, public):
+    """what happens around the transfer of `stream` started by the public method `public`"""
+    info = {'rewind': None, 'catch_all': False, 'unlink': False, 'truncate': False, 'found': False, 'deco': None, 'root': None,
+            'entry': set(), 'pre_seeks': 0, 'pre_reads': 0, 'reads_in_root': 0, 'public_deco': None, 'why': None}
+    try:
+        fl = L.Flow(mod, cls)
+        root, tracked, deco = L.retried_root(sym, fl, public)
+        info.update(root=root, deco=deco, entry=set(fl.entries.get(root, ())), pre_seeks=fl.seeks_at_entry.get(root, 0),
+                    pre_reads=fl.consumes_at_entry.get(root, 0))
+        pub = fl.methods[public]
+        for d in pub.decorator_list:
+            info['public_deco'] = info['public_deco'] or L.on_exception_call(sym, d)
+        run = L.Flow(mod, cls)
+        o = run.function(root, tracked, {L.FState()})
+        info['reads_in_root'] = len({id(n) for _, n, _ in run.consume_nodes})
+        if not run.consume_nodes:
+            info['why'] = 'the stream is not transferred'
+            return info
+        handled = {st for st, h in o.exc if h}
+        unhandled = {st for st, h in o.exc if not h}
+        info['found'] = bool(handled)
+        moved = {st.pos for st in handled if st.pos != 'entry'}
+        if handled and len(moved) == 1 and isinstance(next(iter(moved)), tuple):
+            info['rewind'] = next(iter(moved))[1]
+        info['catch_all'] = bool(handled) and not run.swallowed and run.partial_cover is None and all(st.pos == 'entry' for st in unhandled) \
+            and all(isinstance(st.pos, tuple) or st.pos == 'entry' for st in handled)
+        info['unlink'] = bool(handled) and all(st.unlinked for st in handled)
+        writes = [st for _, _, st in run.consume_nodes]
+        info['truncate'] = bool(writes) and all(st.truncated for st in writes) and any(n == 1 for n, _ in run.truncates)
+    except Exception as e:  # noqa: BLE001
+        info['why'] = f'{type(e).__name__}: {e}'[:200]
+    return info
 
 
 # OSError classes the model distinguishes, by errno (Linux numbering; 0 = an OSError raised without an errno).  Python maps most of
@@ -138,8 +153,9 @@ def sample_oserror(k):
     return OSError(k, os.strerror(k), '/some/where')
 
 
-def local_giveup(tree, call, unparse):
+def local_giveup(tree, found, node, unparse):
     """`giveup=` of the local back-off decorator → (errnos of OS_UNIVERSE for which it says True, exact?, note).
+    `found` = the decorator was found; `node` = the expression given as `giveup=` (None: there is none).
 
     exact = the list is the whole truth for EVERY OSError (only when there is no predicate at all).  A predicate is *tabulated*:
     the module-level function (or lambda) it names is compiled on its own — with the module's imports and the module-level
@@ -147,11 +163,7 @@ def local_giveup(tree, call, unparse):
     exception; whatever cannot be evaluated is reported as "gives up on everything" (so that the model is never more optimistic
     than the code) with exact = False."""
     import errno as _errno
-    node = None
-    for k in (call.keywords if call is not None else []):
-        if k.arg == 'giveup':
-            node = k.value
-    if call is None:
+    if not found:
         return list(OS_UNIVERSE), False, 'back-off decorator of local.py not found'
     if node is None:
         return [], True, None
@@ -187,6 +199,164 @@ def local_giveup(tree, call, unparse):
         return list(OS_UNIVERSE), False, 'giveup=%s could not be tabulated (%r): assumed to give up on everything' % (unparse(node), e)
 
 
+def giveup_node(deco):
+    """the `giveup=` argument of a resolved `backoff.on_exception(…)` as an expression that can be evaluated in the module"""
+    if deco is None:
+        return None
+    for k, v in deco[2]:
+        if k == 'giveup':
+            if v[0] == 'func':
+                return ast.Name(id=v[1].name, ctx=ast.Load())
+            if v[0] == 'lambda':
+                return v[1]
+            ok, c = _lib().const_of(v)
+            return ast.Constant(value=c) if ok else ast.Name(id='<unresolved giveup>', ctx=ast.Load())
+    return None
+
+
+def giveup_status(L, sym, deco):
+    """the status for which the `giveup=` predicate of a back-off decorator says True: the predicate is evaluated symbolically and
+    must be equivalent to `isinstance(e, HTTPStatusError) and e.response.status_code == K` → K"""
+    if deco is None:
+        return None
+    pred = dict(deco[2]).get('giveup')
+    if pred is None:
+        return None
+    try:
+        e = ('param', 'e')
+        outs, _ = sym.outcomes(pred, [e])
+        cases = []
+        for conds, kind, val in outs:
+            if kind != 'ret':
+                return None
+            cases.append(L.conj(list(conds) + [L.as_cond(val)]))
+        truth = L.disj(cases)
+        ks = set()
+
+        def find(c):
+            if isinstance(c, tuple):
+                t = status_test(c) if c and c[0] == 'eq' else None
+                if t is not None and t[0] == e:
+                    ks.add((t[1], c))
+                for x in c:
+                    find(x)
+        find(truth)
+        if len(ks) != 1:
+            return None
+        k, test = next(iter(ks))
+        insts = [c for c in (truth[1] if truth[0] == 'and' else (truth,)) if c[0] == 'isinst' and c[1] == e and is_class(c[2], 'HTTPStatusError')]
+        if len(insts) != 1 or truth != L.conj([insts[0], test]):
+            return None
+        return k
+    except Exception:  # noqa: BLE001
+        return None
+
+
+def catches(deco, name):
+    """the resolved `backoff.on_exception(wait_gen, exception, …)` retries exactly the class called `name`"""
+    if deco is None:
+        return False
+    args, kw = deco[1], dict(deco[2])
+    exc = args[1] if len(args) >= 2 else kw.get('exception')
+    if exc is None:
+        return False
+    if exc[0] == 'tuple' and len(exc[1]) == 1:
+        exc = exc[1][0]
+    return is_class(exc, name) and (name != 'HTTPError' or exc[1].startswith('httpx.'))
+
+
+def hook_auth_status(L, sym):
+    """B2: the status the response hook registered at the HTTP client turns into AuthRequired"""
+    try:
+        clients = [v for v in sym.init_attrs().values() if L.is_client(v)]
+        if len(clients) != 1:
+            return None
+        hooks = []
+        for k, v in clients[0][3]:
+            if k == 'event_hooks' and v[0] == 'dict':
+                for e in v[1]:
+                    if e[0] == 'kv' and L.const_of(e[1]) == (True, 'response') and e[2][0] in ('list', 'tuple'):
+                        hooks += list(e[2][1])
+        found = set()
+        for h in hooks:
+            resp = ('param', 'response')
+            outs, trace = sym.outcomes(h, [resp])
+            for conds, kind, exc in outs:
+                if kind != 'raise' or not exception_is(exc, 'AuthRequired'):
+                    continue
+                guards = [c for c in conds if c[0] == 'exc']
+                others = [c for c in conds if c[0] != 'exc']
+                # inside the handler of the HTTPStatusError that `<response>.raise_for_status()` raised, for exactly one status
+                if len(guards) != 1 or not is_class(guards[0][2], 'HTTPStatusError') or len(others) != 1:
+                    return None
+                t = status_test(others[0])
+                if t is None or not (t[0] == resp or (t[0][0] == 'exception' and t[0][1] == guards[0][1])):
+                    return None
+                # … raised by `<response>.raise_for_status()`, called for every answer (or for every answer outside 2xx)
+                not_success = L.neg(('truthy', ('attr', resp, 'is_success')))
+                if not any(x[0] == 'meth' and x[1] == resp and x[2] == 'raise_for_status' and all(c == not_success for c in g) for g, x in trace):
+                    return None
+                found.add(t[1])
+        return next(iter(found)) if len(found) == 1 else None
+    except Exception:  # noqa: BLE001
+        return None
+
+
+def backoff_handler_info(L, sym, deco):
+    """B2: what the `on_backoff=` handler of the decorator does with the exception that is being retried →
+    (status it lets through as a plain retry, raises AuthRequired for every other status?, sleeps for Retry-After?)"""
+    plain, raises_auth, sleeps = None, False, False
+    if deco is None:
+        return plain, raises_auth, sleeps
+    hs = dict(deco[2]).get('on_backoff')
+    if hs is None:
+        return plain, raises_auth, sleeps
+    handlers = list(hs[1]) if hs[0] in ('list', 'tuple') else [hs]
+    try:
+        for h in handlers:
+            outs, trace = sym.outcomes(h, [('param', 'details')])
+            auth = [(c, e) for c, k, e in outs if k == 'raise' and exception_is(e, 'AuthRequired')]
+            if not auth or any(k == 'raise' and not exception_is(e, 'AuthRequired') for _, k, e in outs):
+                continue
+            # subject: the exception being retried, tested with isinstance(…, HTTPStatusError)
+            insts = {c for conds, _ in auth for c in conds if c[0] == 'isinst' and is_class(c[2], 'HTTPStatusError')}
+            if len(insts) != 1:
+                return None, False, False
+            inst = next(iter(insts))
+            ks = set()
+            ok = True
+            for conds, kind, val in outs:
+                rest = [c for c in conds if c != inst and c[0] != 'exc' and not (c[0] == 'not' and c[1][0] == 'exc')]
+                if L.neg(inst) in conds:
+                    ok = ok and kind == 'ret'              # not an HTTP status error: nothing to decide
+                    continue
+                if inst not in conds or len(rest) != 1:
+                    ok = False
+                    continue
+                c = rest[0]
+                positive = c[0] != 'not'
+                t = status_test(c if positive else c[1])
+                if t is None or t[0] != inst[1]:
+                    ok = False
+                    continue
+                ks.add(t[1])
+                ok = ok and ((kind == 'ret') if positive else (kind == 'raise'))
+            if ok and len(ks) == 1:
+                plain, raises_auth = next(iter(ks)), True
+            for g, t in trace:
+                if t[0] == 'call' and isinstance(t[1], str) and t[1].split('.')[-1] == 'sleep' and inst in g:
+                    def mentions(x):
+                        if x == L.lift('retry-after'):
+                            return True
+                        return isinstance(x, tuple) and any(mentions(y) for y in x)
+                    if any(mentions(a) for a in t[2]):
+                        sleeps = True
+            break
+    except Exception:  # noqa: BLE001
+        return None, False, False
+    return plain, raises_auth, sleeps
+
+
 def _mentions_self(node):
     return any(isinstance(x, ast.Name) and x.id == 'self' for x in ast.walk(node))
 
@@ -205,51 +375,73 @@ def _stores_on_self(fn):
     return out
 
 
-def upload_creds_fresh(fn, unparse):
-    """`B2._get_upload_url_token` → (fresh?, note).  fresh = the method has one shape only: it sends a request to b2_get_upload_url
-    at the top level of its body (every call), every `return` comes after that request, at the top level, and returns something that
-    does not mention `self`; nothing is stored on `self` (or in a global).  Upload credentials have a lifetime (24 h, or until the
-    pod rejects them): a pair kept on the object outlives it."""
+def client_attrs(L, sym):
+    """names of the attributes of `self` that hold the HTTP client"""
+    return {k for k, v in sym.init_attrs().items() if L.is_client(v)}
+
+
+def uses_client(fn, attrs):
+    """the function sends a request through the HTTP client itself"""
+    for x in ast.walk(fn):
+        if isinstance(x, ast.Call) and isinstance(x.func, ast.Attribute) and x.func.attr in ('post', 'get', 'head', 'put', 'delete', 'request', 'stream', 'send', 'patch') \
+                and isinstance(x.func.value, ast.Attribute) and x.func.value.attr in attrs and isinstance(x.func.value.value, ast.Name) and x.func.value.value.id == 'self':
+            return True
+    return False
+
+
+def upload_creds_fresh(fn, unparse, attrs=('_client',)):
+    """the B2 method that asks b2_get_upload_url → (fresh?, note).  fresh = the method has one shape only: it sends a request to
+    b2_get_upload_url at the top level of its body (every call), every `return` comes after that request, at the top level, and returns
+    something that does not mention `self`; nothing is stored on `self` (or in a global).  Upload credentials have a lifetime (24 h, or
+    until the pod rejects them): a pair kept on the object outlives it."""
     if fn is None:
-        return False, '_get_upload_url_token not found'
-    src_all = unparse(fn)
-    if 'b2_get_upload_url' not in src_all:
-        return False, 'no request to b2_get_upload_url in _get_upload_url_token'
+        return False, 'the method that requests b2_get_upload_url was not found'
     req_at = None
     for i, st in enumerate(fn.body):
         if isinstance(st, (ast.Assign, ast.Expr, ast.AnnAssign)) and any(
                 isinstance(x, ast.Call) and isinstance(x.func, ast.Attribute) and x.func.attr in ('post', 'get', 'request')
-                and '_client' in unparse(x.func) for x in ast.walk(st)):
+                and isinstance(x.func.value, ast.Attribute) and x.func.value.attr in attrs for x in ast.walk(st)):
             req_at = i
             break
     if req_at is None:
-        return False, 'the request to b2_get_upload_url is not an unconditional top-level statement of _get_upload_url_token'
+        return False, 'the request to b2_get_upload_url is not an unconditional top-level statement of %s' % fn.name
     top_returns = {id(st) for st in fn.body[req_at + 1:] if isinstance(st, ast.Return)}
     for x in ast.walk(fn):
         if isinstance(x, ast.Return):
             if id(x) not in top_returns:
-                return False, 'a `return` of _get_upload_url_token does not follow the request (line %d: %s)' % (x.lineno, unparse(x)[:60])
+                return False, 'a `return` of %s does not follow the request (line %d: %s)' % (fn.name, x.lineno, unparse(x)[:60])
             if x.value is None or _mentions_self(x.value):
-                return False, 'a `return` of _get_upload_url_token hands out state of the object (line %d: %s)' % (x.lineno, unparse(x)[:60])
+                return False, 'a `return` of %s hands out state of the object (line %d: %s)' % (fn.name, x.lineno, unparse(x)[:60])
     stored = _stores_on_self(fn)
     if stored:
-        return False, '_get_upload_url_token keeps state on the object: %s' % sorted(set(stored))
+        return False, '%s keeps state on the object: %s' % (fn.name, sorted(set(stored)))
     if not top_returns:
-        return False, '_get_upload_url_token has no return after the request'
+        return False, '%s has no return after the request' % fn.name
     return True, None
 
 
 def calls_method_inside(fn, method, unparse):
     """`fn` (a decorated B2 method) calls `self.<method>()` in its own body and stores nothing on `self`"""
-    if fn is None:
+    if fn is None or method is None:
         return False
     called = any(isinstance(x, ast.Call) and isinstance(x.func, ast.Attribute) and x.func.attr == method
                  and isinstance(x.func.value, ast.Name) and x.func.value.id == 'self' for x in ast.walk(fn))
     return called and not _stores_on_self(fn)
 
 
+def requires_auth_outermost(L, sym, fn, deco):
+    """`requires_auth` is the OUTER decorator and the given back-off decorator comes inside it: AuthRequired leaves the back-off loop
+    and reaches it"""
+    if fn is None or deco is None or not fn.decorator_list:
+        return False
+    if sym.dotted_of_decorator(fn.decorator_list[0]) != 'replicat.utils.requires_auth':
+        return False
+    return any(same_call(L.on_exception_call(sym, d), deco) for d in fn.decorator_list[1:])
+
+
 def section(ctx):
     emit, notes, unparse = ctx.emit, ctx.notes, ctx.unparse
+    L = _lib()
 
     def emit_handler(prefix, info, unlink=False, truncate=False):
         emit(f'def {prefix}Rewind : Option Nat := {_on(info["rewind"])}')
@@ -259,148 +451,169 @@ def section(ctx):
         if truncate:
             emit(f'def {prefix}Truncate : Bool := {_b(info["truncate"])}')
         if not info['found']:
-            notes['retry:' + prefix] = 'no try/except found'
+            notes['retry:' + prefix] = 'no exception of the transfer passes through an except / finally clause' + (f' ({info["why"]})' if info['why'] else '')
+
+    def adapter(fname):
+        src = (ctx.REPO / 'replicat' / 'backends' / fname).read_text()
+        mod = L.Mod(src)
+        try:
+            cls = L.adapter_class(mod)
+        except Exception:  # noqa: BLE001
+            cls = None
+        return src, mod, cls, L.Sym(mod, cls)
+
+    def module_decorator(sym, mod, legacy):
+        """the back-off decorator the module defines: the value of the name the base extractor reads `max_tries` from, when it denotes
+        (a partial application of) backoff.on_exception"""
+        if legacy in mod.assigns:
+            return L.on_exception_call(sym, ast.Name(id=legacy, ctx=ast.Load())), sym.deref(sym.module_name(legacy), L.St())
+        return None, None
+
+    def consistent(deco, legacy_call, legacy_value):
+        """the decorator on the retried function is the module's one (or a completed partial application of it)"""
+        if deco is None:
+            return False
+        if legacy_call is not None:
+            return same_call(deco, legacy_call)
+        if legacy_value is not None and legacy_value[0] == 'partial' and legacy_value[1] == ('ext', 'backoff.on_exception'):
+            pre_args, pre_kw = tuple(legacy_value[2]), dict(legacy_value[3])
+            kw = dict(deco[2])
+            return tuple(deco[1][:len(pre_args)]) == pre_args and all(kw.get(k) == v for k, v in pre_kw.items())
+        return legacy_value is None or legacy_value[0] == 'unknown'
 
     # ------------------------------------------------------------------ local.py
-    src = (ctx.REPO / 'replicat' / 'backends' / 'local.py').read_text()
-    tree = ast.parse(src)
+    src, mod, cls, sym = adapter('local.py')
+    tree = mod.tree
     emit('/-! ### retry / rewind: local backend -/')
-    deco_var = None
-    for node in tree.body:
-        if isinstance(node, ast.Assign) and isinstance(node.value, ast.Call) and unparse(node.value.func).endswith('on_exception') \
-                and isinstance(node.targets[0], ast.Name):
-            deco_var = node.targets[0].id
-    deco_call = assigned_call(tree, deco_var) if deco_var else None
-    errnos, exact, note = local_giveup(tree, deco_call, unparse)
+    up = transfer_info(L, sym, mod, cls, 'upload_stream')
+    down = transfer_info(L, sym, mod, cls, 'download_stream')
+    legacy_call, legacy_value = module_decorator(sym, mod, 'backoff_on_oserror')
+    deco = up['deco'] or down['deco'] or legacy_call
+    errnos, exact, note = local_giveup(tree, deco is not None, giveup_node(deco), unparse)
     emit(f'def retryOsUniverse : List Nat := [{", ".join(map(str, OS_UNIVERSE))}]   -- OSError classes (errno; 0 = none) the give-up predicate is tabulated over')
     emit(f'def retryLocalGiveupErrnos : List Nat := [{", ".join(map(str, errnos))}]   -- classes for which the local decorator\'s `giveup=` says True')
     emit(f'def retryLocalGiveupExact : Bool := {_b(exact)}   -- true: there is no `giveup=` predicate, the (empty) list holds for every OSError')
     if note:
         notes['retry:local-giveup'] = note
-    up = ctx.find_func(tree, 'Local', 'upload_stream')
-    down = ctx.find_func(tree, 'Local', 'download_stream')
-    emit_handler('retryLocalUp', handler_info(up, unparse), unlink=True)
-    emit(f'def retryLocalUpDecorated : Bool := {_b(deco_var is not None and deco_var in decorators(up, unparse))}')
-    emit_handler('retryLocalDown', handler_info(down, unparse), truncate=True)
-    emit(f'def retryLocalDownDecorated : Bool := {_b(deco_var is not None and deco_var in decorators(down, unparse))}')
+    emit_handler('retryLocalUp', up, unlink=True)
+    emit(f'def retryLocalUpDecorated : Bool := {_b(same_call(up["deco"], deco) and consistent(up["deco"], legacy_call, legacy_value))}')
+    emit_handler('retryLocalDown', down, truncate=True)
+    emit(f'def retryLocalDownDecorated : Bool := {_b(same_call(down["deco"], deco) and consistent(down["deco"], legacy_call, legacy_value))}')
 
     # ------------------------------------------------------------------ s3c.py
-    src = (ctx.REPO / 'replicat' / 'backends' / 's3c.py').read_text()
-    tree = ast.parse(src)
+    src, mod, cls, sym = adapter('s3c.py')
     emit('/-! ### retry / rewind: S3-compatible backend -/')
-    call = assigned_call(tree, 'backoff_on_httperror')
-    catches = call is not None and len(call.args) >= 2 and unparse(call.args[1]) == 'httpx.HTTPError'
-    emit(f'def retryS3CatchesHTTPError : Bool := {_b(catches)}')
-    emit(f'def retryS3GiveupStatus : Option Nat := {_on(giveup_status(tree, call, unparse))}')
-    dg = None
-    for node in tree.body:
-        if isinstance(node, ast.FunctionDef) and node.name == '_get_stream_hexdigest':
-            dg = node
+    up = transfer_info(L, sym, mod, cls, 'upload_stream')
+    down = transfer_info(L, sym, mod, cls, 'download_stream')
+    legacy_call, legacy_value = module_decorator(sym, mod, 'backoff_on_httperror')
+    deco = up['deco'] or down['deco'] or legacy_call
+    emit(f'def retryS3CatchesHTTPError : Bool := {_b(catches(deco, "HTTPError"))}')
+    emit(f'def retryS3GiveupStatus : Option Nat := {_on(giveup_status(L, sym, deco))}')
+    # where the digest phase (everything `upload_stream` does with the stream before the retried function is entered) leaves the stream
     k = None
-    if dg is not None:
-        params = _params(dg)
-        for st in dg.body:           # top level of the helper, i.e. after the read loop
-            if isinstance(st, ast.Expr) and isinstance(st.value, ast.Call) and isinstance(st.value.func, ast.Attribute) \
-                    and st.value.func.attr == 'seek' and isinstance(st.value.func.value, ast.Name) and st.value.func.value.id in params \
-                    and st.value.args and isinstance(_lit(st.value.args[0]), int) and len(st.value.args) == 1:
-                k = _lit(st.value.args[0])
+    pos = {st.pos for st in up['entry']}
+    if up['root'] is not None and up['pre_reads'] and len(pos) == 1 and isinstance(next(iter(pos)), tuple):
+        k = next(iter(pos))[1]
     emit(f'def retryS3DigestRewind : Option Nat := {_on(k)}')
-    us = ctx.find_func(tree, 'S3Compatible', 'upload_stream')
-    digest_outside = us is not None and any(isinstance(n, ast.Call) and unparse(n.func) == '_get_stream_hexdigest' for n in ast.walk(us))
-    emit(f'def retryS3DigestOutsideRetry : Bool := {_b(digest_outside and "backoff_on_httperror" not in decorators(us, unparse))}')
-    put = ctx.find_func(tree, 'S3Compatible', '_put_object_stream')
-    down = ctx.find_func(tree, 'S3Compatible', 'download_stream')
-    emit_handler('retryS3Up', handler_info(put, unparse))
-    emit(f'def retryS3UpDecorated : Bool := {_b("backoff_on_httperror" in decorators(put, unparse))}')
-    emit_handler('retryS3Down', handler_info(down, unparse), truncate=True)
-    emit(f'def retryS3DownDecorated : Bool := {_b("backoff_on_httperror" in decorators(down, unparse))}')
+    digest_outside = up['deco'] is not None and up['public_deco'] is None and up['pre_reads'] > 0 and up['reads_in_root'] == 1 \
+        and up['root'] is not (cls and {s.name: s for s in cls.body if isinstance(s, (ast.FunctionDef, ast.AsyncFunctionDef))}.get('upload_stream'))
+    emit(f'def retryS3DigestOutsideRetry : Bool := {_b(digest_outside)}')
+    emit_handler('retryS3Up', up)
+    emit(f'def retryS3UpDecorated : Bool := {_b(same_call(up["deco"], deco) and consistent(up["deco"], legacy_call, legacy_value))}')
+    emit_handler('retryS3Down', down, truncate=True)
+    emit(f'def retryS3DownDecorated : Bool := {_b(same_call(down["deco"], deco) and consistent(down["deco"], legacy_call, legacy_value))}')
 
     # ------------------------------------------------------------------ b2.py
-    src = (ctx.REPO / 'replicat' / 'backends' / 'b2.py').read_text()
-    tree = ast.parse(src)
+    src, mod, cls, sym = adapter('b2.py')
+    tree = mod.tree
     emit('/-! ### retry / rewind: B2 backend -/')
-    call = assigned_call(tree, '_backoff_decorator')
-    catches = call is not None and len(call.args) >= 3 and unparse(call.args[2]) == 'httpx.HTTPError'
-    emit(f'def retryB2CatchesHTTPError : Bool := {_b(catches)}')
-    emit(f'def retryB2GiveupStatus : Option Nat := {_on(giveup_status(tree, call, unparse))}')
+    up = transfer_info(L, sym, mod, cls, 'upload_stream')
+    down = transfer_info(L, sym, mod, cls, 'download_stream')
+    legacy_call, legacy_value = module_decorator(sym, mod, '_backoff_decorator')
+    deco = up['deco'] or down['deco']
+    emit(f'def retryB2CatchesHTTPError : Bool := {_b(catches(deco, "HTTPError"))}')
+    emit(f'def retryB2GiveupStatus : Option Nat := {_on(giveup_status(L, sym, deco))}')
     # the response hook: which status becomes AuthRequired
-    hook_status = None
-    for node in tree.body:
-        if isinstance(node, (ast.FunctionDef, ast.AsyncFunctionDef)) and node.name == '_raise_for_status_hook':
-            for sub in ast.walk(node):
-                if isinstance(sub, ast.If) and any(_raises(x, 'AuthRequired', unparse) for x in sub.body):
-                    hook_status = _status_eq(sub.test, unparse)
-    emit(f'def retryB2HookAuthStatus : Option Nat := {_on(hook_status)}')
+    emit(f'def retryB2HookAuthStatus : Option Nat := {_on(hook_auth_status(L, sym))}')
     # the back-off handler
-    plain = None
-    raises_auth = False
-    sleeps_ra = False
-    handler_name = '_wait_and_trigger_reauth'
-    for node in tree.body:
-        if isinstance(node, (ast.FunctionDef, ast.AsyncFunctionDef)) and node.name == handler_name:
-            for sub in ast.walk(node):
-                if isinstance(sub, ast.If) and sub.body and isinstance(sub.body[0], ast.Return) and _status_eq(sub.test, unparse) is not None:
-                    plain = _status_eq(sub.test, unparse)
-                    raises_auth = any(_raises(x, 'AuthRequired', unparse) for x in sub.orelse)
-                if isinstance(sub, ast.Call) and unparse(sub.func).endswith('sleep') and 'retry_after' in unparse(sub):
-                    sleeps_ra = True
+    plain, raises_auth, sleeps_ra = backoff_handler_info(L, sym, deco)
     emit(f'def retryB2PlainRetryStatus : Option Nat := {_on(plain)}')
     emit(f'def retryB2HandlerRaisesAuth : Bool := {_b(raises_auth)}')
     emit(f'def retryB2HandlerSleepsRetryAfter : Bool := {_b(sleeps_ra)}')
-    reauth_deco = None
-    for node in tree.body:
-        if isinstance(node, ast.Assign) and isinstance(node.value, ast.Call) and unparse(node.value.func) == '_backoff_decorator' \
-                and isinstance(node.targets[0], ast.Name):
-            for kw in node.value.keywords:
-                if kw.arg == 'on_backoff' and handler_name in unparse(kw.value):
-                    reauth_deco = node.targets[0].id
-    up = ctx.find_func(tree, 'B2', 'upload_stream')
-    down = ctx.find_func(tree, 'B2', 'download_stream')
-    for prefix, fn, trunc in (('retryB2Up', up, False), ('retryB2Down', down, True)):
-        emit_handler(prefix, handler_info(fn, unparse), truncate=trunc)
-        ds = decorators(fn, unparse)
-        emit(f'def {prefix}Decorated : Bool := {_b(reauth_deco is not None and reauth_deco in ds)}')
-        # `requires_auth` must be the OUTER decorator: AuthRequired leaves the back-off loop and reaches it
-        outer = bool(ds) and ds[0].endswith('requires_auth') and reauth_deco in ds[1:] if reauth_deco else False
-        emit(f'def {prefix}RequiresAuth : Bool := {_b(outer)}')
+    # the re-authenticating back-off decorator = the one whose handler hands the failure over to `requires_auth`
+    reauth_deco = deco if raises_auth and consistent(deco, legacy_call, legacy_value) else None
+    methods = {s.name: s for s in (cls.body if cls is not None else []) if isinstance(s, (ast.FunctionDef, ast.AsyncFunctionDef))}
+    for prefix, info, fn, trunc in (('retryB2Up', up, methods.get('upload_stream'), False), ('retryB2Down', down, methods.get('download_stream'), True)):
+        emit_handler(prefix, info, truncate=trunc)
+        emit(f'def {prefix}Decorated : Bool := {_b(reauth_deco is not None and same_call(info["deco"], reauth_deco))}')
+        emit(f'def {prefix}RequiresAuth : Bool := {_b(info["root"] is fn and requires_auth_outermost(L, sym, fn, reauth_deco))}')
 
     # credentials with a lifetime on a long-lived object (sessions, `ReplicatModel/RetryCred.lean`)
-    fresh, why = upload_creds_fresh(ctx.find_func(tree, 'B2', '_get_upload_url_token'), unparse)
+    attrs = client_attrs(L, sym) or {'_client'}
+    token_methods = [f for f in methods.values() if uses_client(f, attrs) and any(isinstance(x, ast.Constant) and isinstance(x.value, str) and 'b2_get_upload_url' in x.value for x in ast.walk(f))]
+    token = token_methods[0] if len(token_methods) == 1 else None
+    fresh, why = upload_creds_fresh(token, unparse, attrs)
     emit(f'def retryB2UploadCredsFresh : Bool := {_b(fresh)}   -- `_get_upload_url_token` asks b2_get_upload_url on every call and returns that answer; nothing is kept on the object')
     if why:
         notes['retry:b2-upload-credentials'] = why
-    in_attempt = all(calls_method_inside(ctx.find_func(tree, 'B2', m), '_get_upload_url_token', unparse) for m in ('upload', 'upload_stream'))
+    in_attempt = all(calls_method_inside(methods.get(m), token.name if token is not None else None, unparse) for m in ('upload', 'upload_stream'))
     emit(f'def retryB2UploadCredsInAttempt : Bool := {_b(in_attempt)}   -- upload / upload_stream fetch them inside the retried body and keep them in locals')
-    session_methods = ('_get_bucket', 'exists', '_get_upload_url_token', 'upload', 'upload_stream', 'download', 'download_stream',
-                       '_list_file_names', 'delete')
-    all_dec, all_ra = reauth_deco is not None, reauth_deco is not None
-    for m in session_methods:
-        ds = decorators(ctx.find_func(tree, 'B2', m), unparse)
-        all_dec = all_dec and reauth_deco in ds
-        all_ra = all_ra and bool(ds) and ds[0].endswith('requires_auth') and reauth_deco in ds[1:]
+    # every method that sends a request of the session itself (authenticate is what `requires_auth` calls; close ends the session)
+    session_methods = [f for n, f in methods.items() if uses_client(f, attrs) and n not in ('authenticate', 'close', '__init__')]
+    all_dec = reauth_deco is not None and bool(session_methods)
+    all_ra = all_dec
+    for f in session_methods:
+        all_dec = all_dec and any(same_call(L.on_exception_call(sym, d), reauth_deco) for d in f.decorator_list)
+        all_ra = all_ra and requires_auth_outermost(L, sym, f, reauth_deco)
     emit(f'def retryB2SessionDecorated : Bool := {_b(all_dec)}   -- every B2 method that talks to the service carries the re-authenticating back-off decorator')
     emit(f'def retryB2SessionRequiresAuth : Bool := {_b(all_ra)}   -- … inside `requires_auth`')
 
     # ------------------------------------------------------------------ utils.requires_auth
     src = (ctx.REPO / 'replicat' / 'utils' / '__init__.py').read_text()
-    tree = ast.parse(src)
-    ra = None
-    for node in tree.body:
-        if isinstance(node, ast.FunctionDef) and node.name == 'requires_auth':
-            ra = node
+    umod = L.Mod(src, package='replicat.utils')
+    tree = umod.tree
+    ra = umod.funcs.get('requires_auth')
     ctx.fp('utils.requires_auth', ra)
     limit = None
     recurses = False
     if ra is not None:
-        consts = {n.targets[0].id: _lit(n.value) for n in tree.body
-                  if isinstance(n, ast.Assign) and len(n.targets) == 1 and isinstance(n.targets[0], ast.Name)}
+        usym = L.Sym(umod)
         for sub in ast.walk(ra):
-            if isinstance(sub, ast.AsyncFunctionDef):
-                for x in ast.walk(sub):
-                    if isinstance(x, ast.ExceptHandler) and x.type is not None and unparse(x.type).endswith('AuthRequired'):
-                        recurses = any(isinstance(y, ast.Call) and 'authenticate' in unparse(y.func) for y in ast.walk(x))
-                    if isinstance(x, ast.Name) and x.id in consts and 'REAUTH' in x.id.upper() and isinstance(consts[x.id], int):
-                        limit = consts[x.id]
+            if not isinstance(sub, ast.AsyncFunctionDef):
+                continue
+            nested = {n.name: n for n in ast.walk(sub) if isinstance(n, (ast.FunctionDef, ast.AsyncFunctionDef)) and n is not sub}
+
+            def reach(nodes, depth=0):
+                """the nodes and the bodies of the module-level / nested helpers they call"""
+                out = []
+                for x in nodes:
+                    for y in ast.walk(x):
+                        out.append(y)
+                        if isinstance(y, ast.Call) and isinstance(y.func, ast.Name) and depth < 3:
+                            h = nested.get(y.func.id) or (umod.funcs.get(y.func.id) if y.func.id != sub.name and y.func.id != ra.name else None)
+                            if h is not None and h is not sub:
+                                out += reach(h.body, depth + 1)
+                return out
+            self_name = sub.args.args[0].arg if sub.args.args else None
+            for x in ast.walk(sub):
+                if isinstance(x, ast.ExceptHandler) and x.type is not None and usym.dotted_of_decorator(x.type) is not None \
+                        and usym.dotted_of_decorator(x.type).split('.')[-1] == 'AuthRequired':
+                    inside = reach(x.body)
+                    auth = any(isinstance(y, ast.Call) and isinstance(y.func, ast.Attribute) and y.func.attr == 'authenticate'
+                               and isinstance(y.func.value, ast.Name) and y.func.value.id == self_name for y in inside)
+                    func_params = {p.arg for p in ra.args.args}
+                    again = any(isinstance(y, ast.Call) and isinstance(y.func, ast.Name) and y.func.id in ({sub.name} | func_params) for y in inside)
+                    in_loop = any(isinstance(w, (ast.While, ast.For)) and any(z is x for z in ast.walk(w)) for w in ast.walk(sub)) and \
+                        not any(isinstance(y, (ast.Return, ast.Raise, ast.Break)) for y in x.body)
+                    recurses = auth and (again or in_loop)
+            # a bound on the rounds: an integer module constant (or literal default) that the wrapper compares a counter with
+            for x in ast.walk(sub):
+                if isinstance(x, ast.Compare):
+                    for y in [x.left] + list(x.comparators):
+                        if isinstance(y, ast.Name) and y.id in umod.assigns and len(umod.assigns[y.id]) == 1 and umod.assigns[y.id][0] is not None:
+                            v = _lit(umod.assigns[y.id][0])
+                            if isinstance(v, int) and not isinstance(v, bool):
+                                limit = v
     emit('/-! ### utils.requires_auth (async flavour) -/')
     emit(f'def retryReauthOnAuthRequired : Bool := {_b(recurses)}')
     emit(f'def retryReauthLimit : Option Nat := {_on(limit)}   -- a module constant bounding the re-authentication rounds (none = unbounded recursion)')
